@@ -173,7 +173,7 @@ add("s_shift_field", Decl("SShiftField", [("o", Bits(2)), ("p", Bits(6)), ("v", 
     6, 7, "S", "move", "shift")
 add("s_shift_back", Decl("SShiftBack", [("i", Int(1).at(3)), ("d", Data(3).shift(-4))]), 4, 5, "S", "move", "shift", "at")
 add("s_shift_overlap", Decl("SShiftOverlap", [("a", Int(2)), ("v", Int(1).shift(-1)), ("z", Int(1))]), 4, 5,
-    "S", "move", "shift", "overlap")
+    "S", "move", "shift", "overlap", "alwaysoverlap")
 add("s_align_begins", Decl("SAlignBegins", [("a", Int(1)), ("v", Int(1).aligned(4)), ("z", Int(1))]), 6, 7,
     "S", "move", "align", "absolute")
 add("s_align_inner", Decl("SAlignInner", [("a", Int(1)), ("v", Int(1).aligned(4, "innermost-pkt")), ("z", Int(1))]), 6, 7,
@@ -283,6 +283,22 @@ for k1 in _PK:
             6, 8, "P", *sorted({"move"} if ("al2" in (k1, k2) or "sh1" in (k1, k2)) else set()))
 
 
+# ----------------------------------------------------------------------------- G: shapes the code generator groups
+add("g_run_mixed", Decl("GRunMixed", [("a", Int(2)), ("b", Int(1, True)), ("c", Int(4, endian="little")), ("d", Data(2)),
+                                      ("e", Int(3)), ("f", Int(2, True, "little")), ("g", Int(8))]), 22, 23, "G", "flat")
+add("g_three_little", Decl("GThreeLittle", [("a", Int(2, endian="little")), ("b", Int(4, True, "little")),
+                                            ("c", Int(1, endian="little")), ("d", Int(2))]), 9, 10, "G", "flat")
+add("g_var_between", Decl("GVarBetween", [("a", Int(1)), ("n", Bits(2)), ("p", Bits(6)), ("d", Data(Fld("n"))),
+                                          ("b", Int(2)), ("c", Int(2, endian="little"))]), 9, 10, "G")
+add("g_data_in_run", Decl("GDataInRun", [("d", Data(3)), ("a", Int(1)), ("e", Data(1)), ("b", Int(2, True))]), 7, 8, "G", "flat")
+add("g_cls_little", Decl("GClsLittle", [("a", Int(2)), ("b", Int(2, endian="big")), ("c", Int(4)), ("d", Int(3))],
+                         endianness="little"), 11, 12, "G", "flat")
+add("g_loops", Decl("GLoops", [("t", Bits(1)), ("n", Bits(2)), ("p", Bits(5)), ("s", Seq(Int(2), count=Fld("n"))),
+                               ("o", Opt(Int(1), Fld("t"))), ("z", Int(2, endian="little")), ("y", Int(1))]), 8, 10, "G")
+add("g_moves", Decl("GMoves", [("a", Int(1)), ("b", Int(2).at(2)), ("c", Int(1)), ("d", Int(2).aligned(4, "innermost-pkt"))]),
+    10, 11, "G", "move")
+
+
 def get(key):
     return CAT[key]["decl"]
 
@@ -291,7 +307,7 @@ def select(tier, *any_tags, exclude=(), families=None):
     """entries having at least one of any_tags (all entries when none given) and none of exclude"""
     out = []
     for key, e in CAT.items():
-        fam = [t for t in e["tags"] if t in ("S", "D", "N", "P")]
+        fam = [t for t in e["tags"] if t in ("S", "D", "N", "P", "G")]
         if families is not None and not (set(fam) & set(families)):
             continue
         if any_tags and not (e["tags"] & set(any_tags)):
